@@ -11,10 +11,13 @@
                 nb  = json.loads(json.dumps(serialize_extraction(x, include_binary=False)))
                 same = "yes" | "no:<what>" | "n/a": out.to_json(), get_full_text(), units, tables and image
                       bytes of the restored object compared with the original's (complete, unprojected)
-     Cell       kind = Python type of the value openpyxl delivered for a cell,
+     Cell       kind = Python type of the value openpyxl delivered for a cell, row = "header" | "data",
                 out  = tag of the value the extractor stored for it in sheet.data
      Cli        mode, n = number of results, top/inner = JSON type of stdout's top level / its items,
-                eq = stdout equals the library's JSON for the same results
+                eq = stdout equals the library's JSON for the same results; recorded in-process and, for
+                documents / file names with non-ASCII, non-BMP and undecodable characters, in processes
+                whose stdout has the encoding of several environments (utf-8, ascii, cp1252, C locale):
+                there rc = 0 and eq mean "the bytes written decode and parse to the library's JSON"
      CliItem    one result (--json) / unit (--json-unit) of the CLI's stdout with the object it came from
                 (multi-result inputs: archives of documents with images, and small single results)
 
@@ -74,7 +77,9 @@ AsBuilt(e) ==
 
 TraceRoundTrip == IsEvent("RoundTrip") /\ (IF Accept = "law" THEN Law(Ev) ELSE AsBuilt(Ev))
 
-TraceCell == IsEvent("Cell") /\ Ev.out = CellNorm(Ev.kind) /\ Ev.out # "py"
+TraceCell == /\ IsEvent("Cell")
+             /\ IF Ev.row = "header" THEN HeaderCellOK(Ev.out)
+                ELSE Ev.out = CellNorm(Ev.kind) /\ Ev.out # "py"
 
 \* cli.py:_serialize_results / _serialize_unit_results: one result -> its JSON, several -> an array
 CliTop(mode, n)   == IF mode = "json" THEN (IF n = 1 THEN "obj" ELSE "arr") ELSE "arr"
